@@ -286,11 +286,32 @@ func (a *idxAnalyzer) walkBody(body *ast.BlockStmt, entry *zone) {
 					if len(x.Lhs) == 1 {
 						a.assign(z, x.Lhs[0], x.Rhs[0])
 					} else {
-						// parallel assignment: evaluate conservatively (forget all, then no facts)
-						for i := range x.Lhs {
-							a.assign(z, x.Lhs[i], nil)
+						// parallel assignment: when no target occurs in another source the
+						// assignments can be modelled one after the other
+						indep := true
+						for _, l := range x.Lhs {
+							lk, ok := a.termKey(l)
+							if !ok {
+								continue
+							}
+							for _, rr := range x.Rhs {
+								ast.Inspect(rr, func(n ast.Node) bool {
+									if e, ok := n.(ast.Expr); ok {
+										if k, ok := a.termKey(e); ok && (k == lk || termMentions(k, lk)) {
+											indep = false
+										}
+									}
+									return true
+								})
+							}
 						}
-						_ = x.Rhs
+						for i := range x.Lhs {
+							if indep {
+								a.assign(z, x.Lhs[i], x.Rhs[i])
+							} else {
+								a.assign(z, x.Lhs[i], nil)
+							}
+						}
 					}
 				} else if len(x.Rhs) == 1 {
 					if call, ok := ast.Unparen(x.Rhs[0]).(*ast.CallExpr); ok {
